@@ -96,7 +96,9 @@ add("C11", "A", "exploration",
 add("C13", "O", "fault_enumeration",
     "The option dictionary is treated as a bag of messages to the Scenarios node; message faults: drop a family, unknown value, unknown "
     "extra key, permuted order, duplicate setter call (all ordered pairs within a family, cross-family pairs), the same caller "
-    "dictionary for two countries, numeric overrides (every species column x country through the herd-table read seam). Oracle: "
+    "dictionary for two countries, numeric overrides (every species column x country through the herd-table read seam); node fault: the stubbed downstream "
+    "pipeline fails transiently for one message (fail-stop = no verdict; a dispatcher that carries on is judged on what it delivers), "
+    "then a clean message for the same country. Oracle: "
     "documented option table (README + setter docstrings) -> exact constants diff; rejection before compute_parameters_first_round can "
     "be reached; caller dictionary deep-equal to its snapshot; override changes exactly its target. Thorough enumerates the single-fault "
     "space exhaustively (exhaustive: true); quick = fixed core + seeded sample.",
